@@ -1,15 +1,19 @@
 #!/usr/bin/env python3
-"""Append one entry to /verif/known_findings.json (idempotent, under an exclusive lock)."""
-import fcntl, json, os, sys
-path = os.path.join(os.path.dirname(os.path.abspath(__file__)), "..", "..", "..", "known_findings.json")
+"""Append one entry to /verif/known_findings.d/sim.json (idempotent)."""
+import json, os, sys
+d_ = os.path.join(os.path.dirname(os.path.abspath(__file__)), "..", "..", "..", "known_findings.d")
+os.makedirs(d_, exist_ok=True)
+path = os.path.join(d_, "sim.json")
 prop, sig, what = sys.argv[1:4]
-with open(path, "r+") as f:
-    fcntl.flock(f, fcntl.LOCK_EX)
-    d = json.load(f)
-    if not any(e.get("property") == prop and e.get("signature") == sig for e in d["findings"]):
-        d["findings"].append({"property": prop, "signature": sig, "what": what})
-        f.seek(0); f.truncate()
+d = {"findings": []}
+if os.path.exists(path):
+    d = json.load(open(path))
+if not any(e.get("property") == prop and e.get("signature") == sig for e in d["findings"]):
+    d["findings"].append({"property": prop, "signature": sig, "what": what})
+    tmp = path + ".tmp"
+    with open(tmp, "w") as f:
         json.dump(d, f, indent=1); f.write("\n")
-        print("added")
-    else:
-        print("already present")
+    os.replace(tmp, path)
+    print("added")
+else:
+    print("already present")
